@@ -239,3 +239,20 @@ func (w *World) inlinedInto(root, fn *ssa.Function) bool {
 	}
 	return false
 }
+
+// CallerRoots: the analysed functions whose exploration contains a call of fn
+// (the call may sit in a helper that is expanded in place).
+func (w *World) CallerRoots(fn *ssa.Function) []*ssa.Function {
+	seen := map[*ssa.Function]bool{}
+	var out []*ssa.Function
+	for _, call := range w.Callers(fn) {
+		for _, r := range w.rootsOf(call.Parent()) {
+			if !seen[r] {
+				seen[r] = true
+				out = append(out, r)
+			}
+		}
+	}
+	sort.Slice(out, func(i, j int) bool { return out[i].String() < out[j].String() })
+	return out
+}
